@@ -354,6 +354,12 @@ let spec_s ops impl =
              | Some _, None -> add "recv-discarded-message"
              | _ -> ()
            end
+       | 'D' ->
+           if base = "ok" then begin
+             match nth_opt preh (int_of_string arg) with
+             | Some (sid, idx) -> if not (drop_ok pres post sid idx) then add "drop-loses-ack-or-close"
+             | None -> ()
+           end
        | 'O' -> if base <> "locked" && not (sweep_orphan_ok pres (base = "fired")) then add "orphan-sweeper"
        | 'W' ->
            if base <> "locked" && not (sweep_accept_ok pres (base = "fired") (ni ms) (ni ms)) then add "accept-timeout-sweeper"
